@@ -53,6 +53,24 @@ def search_pos(t0, t1, pat=0, **kw):
     return (not ok), f"search {PAT!r} in {flat!r}: {pos} {first} {allm}"
 
 
+def search_after_edit(t0, t1, in_span, pat=0, **kw):
+    PAT = PATTERNS[pat]
+    p, sp = mk(t0, t1)
+    p.search_all(PAT), p.search(PAT), p.text_at(0)
+    if in_span:
+        sp.text = "ba"
+        flat = t0 + "ba" + TAIL
+    else:
+        sp.tail = "b" + TAIL
+        flat = t0 + t1 + "b" + TAIL
+    m = re.search(PAT, flat)
+    pos, first, allm = p.search(PAT), p.search_first(PAT), p.search_all(PAT)
+    ok = ((pos is None) == (m is None)) and (pos is None or pos == m.start())
+    ok = ok and ((first is None) == (m is None)) and (first is None or first == (m.start(), m.end()))
+    ok = ok and allm == [(x.start(), x.end()) for x in re.finditer(PAT, flat)] and p.text_at(0) == flat and p.match(PAT) == (m is not None)
+    return (not ok), f"search {PAT!r} after an edit, text now {flat!r}: search {pos}, first {first}, all {allm}, text_at(0) {p.text_at(0)!r}"
+
+
 def text_at_pos(t0, t1, start, end, **kw):
     p, sp = mk(t0, t1)
     flat = t0 + t1 + TAIL
